@@ -8,6 +8,7 @@ package main
 
 import (
 	"bufio"
+	"bytes"
 	"fmt"
 	"net"
 	"sort"
@@ -367,10 +368,16 @@ func runC20Abrupt(n int) string {
 		nd.delayMs = 20
 	}
 	cl.mu.Unlock()
+	// replies of 6000 bytes: the session's write buffer fills and is flushed while the reader is still handing requests on
+	setup := dialProxy(sp.addr)
+	setup.send(bulkArr([]byte("set"), []byte("abbig"), bytes.Repeat([]byte("x"), 6000)).bytes(), nil)
+	setup.recv(3 * time.Second)
+	setup.close()
+	waitFor(2*time.Second, func() bool { return sp.counter("downstream.cx_destroy_total") >= 2 })
 	sc := dialProxy(sp.addr)
 	var buf []byte
 	for i := 0; i < n; i++ {
-		buf = append(buf, bulkArr([]byte("get"), []byte("ab"+strconv.Itoa(i))).bytes()...)
+		buf = append(buf, bulkArr([]byte("get"), []byte("abbig")).bytes()...)
 	}
 	sc.send(buf, nil)
 	time.Sleep(30 * time.Millisecond)
